@@ -4,7 +4,7 @@
    stored at cache address a.  [is_target (select r targets) e]: entity e is selected by the command's targets.
    [holds f a c]: the object at a is a regular file with bytes c.  [obj_present f a]: there is an object at a. *)
 From Coq Require Import List Bool NArith.
-From XV Require Import Base.Amap Base.Bytes Repo.Model Repo.Inv Repo.Ext Repo.ExtProofs Repo.ExtReach.
+From XV Require Import Base.Amap Base.Bytes Repo.Model Repo.Inv Repo.Ext Repo.ExtProofs Repo.ExtReach Repo.ExtDRO.
 Import ListNotations.
 Local Open Scope N_scope.
 
@@ -148,6 +148,42 @@ Proof.
   intros it [<-|[<-|[]]]; vm_compute; repeat split; reflexivity.
 Qed.
 
+(* ---- 4b. the same over WHOLE histories (Repo/ExtDRO.v) ------------------------------------------------------------------- *)
+(* every command of the extended model keeps DRO: copy and move unconditionally (copy_cache_file_for_path, the repair of
+   P3, leaves the directory of the sibling object it creates read-only; the recheck of the destinations and the renames
+   touch only the workspace), remove and untrack with the repair of P50, the base commands (user actions, track,
+   carry-in, recheck) outside the known classes and when they do not panic.  Hence after EVERY history [h] of clean steps
+   ([xhist_ok]: the side conditions of [xreach], no panicking base command) from an initialised repository the directory
+   of every cache object is read-only -- any length, any interleaving of the ten kinds of steps, any option sets. *)
+Theorem copy_keeps_directories_readonly fl o src dst r : DRO (xfs r) -> DRO (xfs (fst (copy_cmd3 fl o src dst r))).
+Proof. exact (copy_cmd_DRO fl o src dst r). Qed.
+Theorem move_keeps_directories_readonly fl o src dst r : DRO (xfs r) -> DRO (xfs (fst (move_cmd45 fl o src dst r))).
+Proof. exact (move_cmd_DRO fl o src dst r). Qed.
+Theorem step_keeps_directories_readonly fl r it :
+  fixed_P50 fl = true -> INV (base r) -> xclean r it = true -> base_panics fl r it = false ->
+  DRO (xfs r) -> DRO (xfs (fst (do_xitem fl r it))).
+Proof. exact (xstep_DRO fl r it). Qed.
+Theorem history_keeps_directories_readonly fl a m t h :
+  fixed_P50 fl = true -> xhist_ok fl (xinit a m t) h = true -> DRO (xfs (run_xitems fl (xinit a m t) h)).
+Proof. exact (xhistory_DRO fl a m t h). Qed.
+Print xhist_ok. Print base_panics.
+(* the premises are satisfiable by a history that uses all five kinds of steps and shares a digest directory between two
+   extensions (copy a.txt to c.dat creates 0.dat next to 0.txt); and the conclusion fails on the same history without
+   the repair of P50 (so the hypothesis on the switch is needed) *)
+Definition cp_plain : copy_opts := {| c_as := None; c_cforce := false; c_no_recheck := false; c_name_only := false |}.
+Definition mv_plain : move_opts := {| m_as := None; m_no_recheck := false |}.
+Definition s_c_dat : bytes := [99; 46; 100; 97; 116].
+Definition s_d_dat : bytes := [100; 46; 100; 97; 116].
+Definition h_all_kinds : list xitem :=
+  [XBase (UWrite s_a_txt s_hello); XBase (XTrack t_plain [s_a_txt]); XCopy cp_plain s_a_txt s_c_dat;
+   XMove mv_plain s_c_dat s_d_dat; XRemove rm_cur [s_d_dat]; XUntrack [s_d_dat]].
+Example history_premises_hold :
+  xhist_ok all_fixed r0 h_all_kinds = true /\ xhist_ok as_is r0 h_all_kinds = true /\
+  DRO_b (xfs (run_xitems all_fixed r0 h_all_kinds)) = true /\
+  length (objs (xfs (run_xitems all_fixed r0 (firstn 4 h_all_kinds)))) = 2%nat /\
+  length (objs (xfs (run_xitems all_fixed r0 h_all_kinds))) = 1%nat.
+Proof. vm_compute. repeat split; reflexivity. Qed.
+
 (* ---- examples ------------------------------------------------------------------------------------------------------------------ *)
 (* a.txt has two versions (hello, other); b.txt (symlink) holds "hello" = the OLD version of a.txt; c.txt (hard link)
    holds "other" = the current version of a.txt *)
@@ -284,3 +320,7 @@ Print Assumptions removal_keeps_directories_readonly_fixed.
 Print Assumptions cache_remove_keeps_directories_readonly.
 Print Assumptions K_sibling_left_class_empty_when_fixed.
 Print Assumptions removal_leaves_directory_writable_refuted.
+Print Assumptions copy_keeps_directories_readonly.
+Print Assumptions move_keeps_directories_readonly.
+Print Assumptions step_keeps_directories_readonly.
+Print Assumptions history_keeps_directories_readonly.
